@@ -383,6 +383,10 @@ func (w *vbvWorld) realise(t *testing.T, o vbvOp) (*vbvBuilt, bool) {
 			items = []any{*pre}
 		case "pre-x-seal":
 			items = []any{*pre, x}
+		case "pre-s-seal":
+			stray := make([]byte, 64)
+			rng.Read(stray)
+			items = []any{*pre, types.SealDigest{ConsensusEngineID: types.BabeEngineID, Data: stray}}
 		case "only-pre":
 			items, withSeal = []any{*pre}, false
 		case "no-seal":
@@ -412,7 +416,17 @@ func (w *vbvWorld) realise(t *testing.T, o vbvOp) (*vbvBuilt, bool) {
 				if err != nil {
 					t.Fatalf("VERIF-INFRA deep copy: %v", err)
 				}
-				switch rng.Intn(4) {
+				variant := rng.Intn(4)
+				if o.Layout == "pre-s-seal" {
+					variant = 4
+				}
+				switch variant {
+				case 4:
+					// signed over the header WITHOUT the stray seal item (i.e. with every seal item removed)
+					h3 := types.NewHeader(h.ParentHash, h.StateRoot, h.ExtrinsicsRoot, h.Number, types.NewDigest())
+					_ = h3.Digest.Add(*pre)
+					sealVariant = "without-stray-seal"
+					msg = vbvSealHash(t, h3)
 				case 0:
 					h2.Number++
 					sealVariant = "number"
